@@ -66,7 +66,8 @@ def registry_geometry():
     body = re.search(r"fn new_type\b.*?\n    \}\n", b, re.S)
     if not body:
         return None
-    m = re.search(r"registry:\s*([^\n]*?),\s*\n", body.group(0))
+    # the field initialised with a Registry (whatever the field is called)
+    m = re.search(r"\b\w+:\s*((?:Registry::\w+|Default::default)\([^\n]*?\)),\s*\n", body.group(0))
     if not m:
         return None
     expr = m.group(1).strip()
